@@ -444,6 +444,63 @@ pub fn families(cfg: &FamCfg) -> Vec<Shape> {
                 }
             }
         }
+        // GCmx: members of one dimension but of different concrete types, in both orders (the per-member accumulators of
+        // coordinate_position / dimensions / relate must not depend on which member type comes last)
+        let nat_pg = |r: &Vec<IP>| -> Geometry<f64> {
+            if r.len() == 3 {
+                Geometry::Triangle(Triangle(c(r[0]), c(r[1]), c(r[2])))
+            } else if let Some((a, b)) = is_axis_rect(r) {
+                Geometry::Rect(Rect::new(c(a), c(b)))
+            } else {
+                Geometry::Polygon(poly(&Poly { shell: r.clone(), holes: vec![] }))
+            }
+        };
+        let mut cnt = 0;
+        for i in 0..small.len() {
+            for j in i + 1..small.len() {
+                let special = |r: &Vec<IP>| r.len() == 3 || is_axis_rect(r).is_some();
+                if special(small[i]) == special(small[j]) && cnt % 5 != 0 {
+                    // same flavour on both sides: keep a fifth of them
+                    cnt += 1;
+                    continue;
+                }
+                let (p, q) =
+                    (Poly { shell: small[i].clone(), holes: vec![] }, Poly { shell: small[j].clone(), holes: vec![] });
+                let m = de9im(&AG::Polys(vec![p.clone()]), &AG::Polys(vec![q.clone()]));
+                if mstr(&m).starts_with("FF") && m[B][I] == -1 && m[B][B] == -1 {
+                    cnt += 1;
+                    if cnt % 7 != 0 {
+                        continue;
+                    }
+                    let (gp, gq) = (nat_pg(small[i]), nat_pg(small[j]));
+                    let gq2 = if cnt % 2 == 0 { Geometry::MultiPolygon(MultiPolygon(vec![poly(&q)])) } else { gq.clone() };
+                    push(&mut v, AG::Polys(vec![p.clone(), q.clone()]), gcw(vec![gp.clone(), gq2.clone()]), "GCmx");
+                    push(&mut v, AG::Polys(vec![q.clone(), p.clone()]), gcw(vec![gq, gp]), "GCmx");
+                }
+            }
+        }
+        let mut cnt = 0;
+        for i in 0..segs.len() {
+            for j in i + 1..segs.len() {
+                if !segs_meet(segs[i][0], segs[i][1], segs[j][0], segs[j][1]) {
+                    cnt += 1;
+                    if cnt % 11 != 0 {
+                        continue;
+                    }
+                    let a = Geometry::MultiLineString(MultiLineString(vec![ls(&segs[i])]));
+                    let b = Geometry::Line(Line::new(c(segs[j][1]), c(segs[j][0])));
+                    let rj = vec![segs[j][1], segs[j][0]]; // the abstract description follows the concrete coordinate order
+                    push(&mut v, AG::Lines(vec![segs[i].clone(), rj.clone()]), gcw(vec![a.clone(), b.clone()]), "GCmx");
+                    push(&mut v, AG::Lines(vec![rj, segs[i].clone()]), gcw(vec![b, a]), "GCmx");
+                }
+            }
+        }
+        for s in subsets(&g, 3).into_iter().step_by(5) {
+            let a = Geometry::MultiPoint(MultiPoint(vec![Point(c(s[0])), Point(c(s[1]))]));
+            let b = Geometry::Point(Point(c(s[2])));
+            push(&mut v, AG::Pts(s.clone()), gcw(vec![a.clone(), b.clone()]), "GCmx");
+            push(&mut v, AG::Pts(s.clone()), gcw(vec![b, a]), "GCmx");
+        }
     }
     v
 }
